@@ -353,6 +353,17 @@ func (c *Ctx) edgeHashAccumulation() {
 							k = "pos" + k
 						}
 						ck = append(ck, k)
+					} else if cd.Tag != nil {
+						// `switch n { case x: }` reads as n == x
+						for _, v := range cd.Vals {
+							k := "(" + c.canon(info, cd.Tag, o) + " == " + c.canon(info, v, o) + ")"
+							if cd.Neg {
+								k = "not" + k
+							} else {
+								k = "pos" + k
+							}
+							ck = append(ck, k)
+						}
 					}
 				}
 				accs = append(accs, acc{st, c.canon(info, x, o), s2, kind, strings.Join(ck, " && ")})
@@ -492,7 +503,7 @@ func (c *Ctx) hashmapSiblings() {
 				if g == nil || seen[g] || g.Exported() || g.Pkg() != fi.Obj.Pkg() || g == idx.Obj || g == reh.Obj {
 					continue
 				}
-				if gi := c.FuncOfObj(g); gi != nil && gi.Decl.Body != nil && gi.Decl.Recv != nil {
+				if gi := c.FuncOfObj(g); gi != nil && gi.Decl.Body != nil {
 					seen[g] = true
 					out = append(out, gi)
 				}
@@ -506,6 +517,9 @@ func (c *Ctx) hashmapSiblings() {
 		n := 0
 		for _, fi := range unitsOf(fi0) {
 			r := recvObj(info, fi.Decl)
+			if r == nil {
+				continue // a plain helper function (bucket search): it has no table of its own
+			}
 			for _, call := range callsIn(fi.Decl.Body, true) {
 				if calleeOf(info, call) != idx.Obj || len(call.Args) != 2 {
 					continue
